@@ -20,7 +20,11 @@ least-derived template.  The spec renders
   are wrapped in `BadInclude`),
 * `import` / `from … import` as such an include into a fresh frame whose locals become the
   module / the imported value,
-* loops and macro calls by running their bodies (macro: fresh frames, no current block).
+* loops, `{% autoescape %}` blocks and macro calls by running their bodies (macro: fresh frames,
+  no current block),
+* the auto-escape mode: an included / imported template runs in *its own* initial mode
+  (the one its name selects) whatever the includer's current mode is; blocks, `super()`,
+  macros and the parent's layout reached through `extends` keep the current mode.
 
 What is shared with the driver: the handling of variables (`varItem`, `store`, `load`: the
 frames are threaded exactly as the engine does — the spec abstracts from the *block* machinery,
@@ -34,13 +38,13 @@ abbrev SRes := Except Err (List String × List Frame)
 
 /-- the spec one nesting level further down -/
 structure SpecCbs where
-  /-- definition `k` of block `n` (its frame already pushed): `D n k disc outer frames` -/
-  body : (Nat → List (List Item)) → Nat → Nat → Bool → Nat → List Frame → SRes
+  /-- definition `k` of block `n` (its frame already pushed): `D n k disc outer ae frames` -/
+  body : (Nat → List (List Item)) → Nat → Nat → Bool → Nat → AE → List Frame → SRes
   /-- a statement list inside the current definition (loop / macro bodies):
-      `D cur disc ext outer items frames` -/
-  list : (Nat → List (List Item)) → Option (Nat × Nat) → Bool → Bool → Nat → List Item → List Frame → SRes
-  /-- the layout of the last template of `chain`, then its parents: `chain disc outer layout frames` -/
-  chain : List Nat → Bool → Nat → List Item → List Frame → SRes
+      `D cur disc ext outer ae items frames` -/
+  list : (Nat → List (List Item)) → Option (Nat × Nat) → Bool → Bool → Nat → AE → List Item → List Frame → SRes
+  /-- the layout of the last template of `chain`, then its parents: `chain disc outer ae layout frames` -/
+  chain : List Nat → Bool → Nat → AE → List Item → List Frame → SRes
 
 /-- the block table entry of template `i` for block `n` -/
 def blockOf (env : Env) (i n : Nat) : Option (List Item) :=
@@ -53,7 +57,7 @@ def defs (env : Env) (chain : List Nat) (n : Nat) : List (List Item) :=
   chain.filterMap (fun i => blockOf env i n)
 
 /-- a block reference: the most-derived definition -/
-def specBlock (cbs : SpecCbs) (D : Nat → List (List Item)) (disc : Bool) (outer : Nat) (m : Nat)
+def specBlock (cbs : SpecCbs) (D : Nat → List (List Item)) (disc : Bool) (outer : Nat) (ae : AE) (m : Nat)
     (fs : List Frame) : SRes :=
   match D m with
   | [] => .error [.unknownBlock]
@@ -61,20 +65,20 @@ def specBlock (cbs : SpecCbs) (D : Nat → List (List Item)) (disc : Bool) (oute
     if (b :: bs).length == 1 && isRequired b then .error [.invalidOperation]
     else if pushFails outer fs then .error [.invalidOperation]
     else
-      match cbs.body D m 0 disc outer (fs ++ [[]]) with
+      match cbs.body D m 0 disc outer ae (fs ++ [[]]) with
       | .error e => .error e
       | .ok (o, fs') => .ok (o, fs'.take fs.length)
 
 /-- `super()` inside definition `k` of block `n`: definition `k + 1` -/
 def specSuper (cbs : SpecCbs) (D : Nat → List (List Item)) (cur : Option (Nat × Nat)) (disc : Bool)
-    (outer : Nat) (fs : List Frame) : SRes :=
+    (outer : Nat) (ae : AE) (fs : List Frame) : SRes :=
   match cur with
   | none => .error [.invalidOperation]
   | some (n, k) =>
     if k + 1 < (D n).length then
       if pushFails outer fs then .error [.invalidOperation]
       else
-        match cbs.body D n (k + 1) disc outer (fs ++ [[]]) with
+        match cbs.body D n (k + 1) disc outer ae (fs ++ [[]]) with
         | .error e => .error (.evalBlock :: e)
         | .ok (o, fs') => .ok (o, fs'.take fs.length)
     else .error [.invalidOperation]
@@ -89,7 +93,7 @@ def specInclude (env : Env) (cbs : SpecCbs) (disc ign : Bool) (outer : Nat) :
     | some T =>
       if outer + INCLUDE_COST + fs.length > LIMIT then .error [.invalidOperation]
       else
-        match cbs.chain [t] disc (outer + INCLUDE_COST) T.layout fs with
+        match cbs.chain [t] disc (outer + INCLUDE_COST) T.ae T.layout fs with
         | .error e => .error (.badInclude :: e)
         | .ok (o, fs') => .ok (o, fs'.take fs.length)
 
@@ -105,30 +109,30 @@ def specLoop (run : List Frame → SRes) (v : Nat) (vals : List String) (fl : Na
 /-- a statement list.  `disc`: the output is discarding; `ext`: an `extends` of the enclosing
     template has been executed; `cur`: the block definition being rendered -/
 def specItems (env : Env) (rootCtx : Frame) (cbs : SpecCbs) (D : Nat → List (List Item))
-    (cur : Option (Nat × Nat)) (disc ext : Bool) (outer : Nat) : List Item → List Frame → SRes
+    (cur : Option (Nat × Nat)) (disc ext : Bool) (outer : Nat) (ae : AE) : List Item → List Frame → SRes
   | [], fs => .ok ([], fs)
   | it :: rest, fs =>
     let cont (r : SRes) : SRes :=
       match r with
       | .error e => .error e
       | .ok (o, fs') =>
-        match specItems env rootCtx cbs D cur disc ext outer rest fs' with
+        match specItems env rootCtx cbs D cur disc ext outer ae rest fs' with
         | .error e => .error e
         | .ok (o', fs'') => .ok (o ++ o', fs'')
     match it with
     | .callBlock m =>
-      if ext || disc then cont (.ok ([], fs)) else cont (specBlock cbs D disc outer m fs)
-    | .super => cont (specSuper cbs D cur disc outer fs)
+      if ext || disc then cont (.ok ([], fs)) else cont (specBlock cbs D disc outer ae m fs)
+    | .super => cont (specSuper cbs D cur disc outer ae fs)
     | .setSuper v =>
-      match specSuper cbs D cur false outer fs with
+      match specSuper cbs D cur false outer ae fs with
       | .error e => .error e
-      | .ok (o, fs') => cont (.ok ([], store fs' v (.str (String.join o))))
+      | .ok (o, fs') => cont (.ok ([], store fs' v (captured ae o)))
     | .setSelf v m =>
-      if ext then cont (.ok ([], store fs v (.str "")))
+      if ext then cont (.ok ([], store fs v (captured ae [])))
       else
-        match specBlock cbs D false outer m fs with
+        match specBlock cbs D false outer ae m fs with
         | .error e => .error e
-        | .ok (o, fs') => cont (.ok ([], store fs' v (.str (String.join o))))
+        | .ok (o, fs') => cont (.ok ([], store fs' v (captured ae o)))
     | .extends exec _ =>
       if !exec then cont (.ok ([], fs))
       else if ext then .error [.invalidOperation]
@@ -152,7 +156,7 @@ def specItems (env : Env) (rootCtx : Frame) (cbs : SpecCbs) (D : Nat → List (L
       if body.any isExtends then .error [.unsupported]
       else if pushFails outer fs then .error [.invalidOperation]
       else
-        match specLoop (cbs.list D cur disc ext outer body) v vals fs.length (fs ++ [[]]) with
+        match specLoop (cbs.list D cur disc ext outer ae body) v vals fs.length (fs ++ [[]]) with
         | .error e => .error e
         | .ok (o, s) => cont (.ok (o, s.take fs.length))
     | .inMacro m arg val body =>
@@ -162,11 +166,14 @@ def specItems (env : Env) (rootCtx : Frame) (cbs : SpecCbs) (D : Nat → List (L
         let outer' := outer + fs1.length + MACRO_COST
         if outer' + 2 > LIMIT then .error [.invalidOperation]
         else
-          match cbs.list D none false false outer' body [[], [(arg, .str val)]] with
+          match cbs.list D none false false outer' ae body [[], [(arg, .str val)]] with
           | .error e => .error e
           | .ok (o, _) => cont (.ok (if disc then [] else o, fs1))
+    | .autoesc m body =>
+      if body.any isExtends || body.any isAutoesc then .error [.unsupported]
+      else cont (cbs.list D cur disc ext outer m body fs)
     | it =>
-      match varItem rootCtx disc it fs with
+      match varItem rootCtx disc ae it fs with
       | some (.ok (o, fs')) => cont (.ok (o, fs'))
       | some (.error e) => .error e
       | none => .error [.unsupported]
@@ -187,12 +194,12 @@ def hasExecExtends : List Item → Bool
 
 /-- the layout of the last template of `chain` (most-derived first), then its parents -/
 def specChain (env : Env) (rootCtx : Frame) (cbs : SpecCbs) (chain : List Nat) (disc : Bool)
-    (outer : Nat) (layout : List Item) (fs : List Frame) : SRes :=
+    (outer : Nat) (ae : AE) (layout : List Item) (fs : List Frame) : SRes :=
   let D := defs env chain
   match splitExtends layout with
-  | none => specItems env rootCtx cbs D none disc false outer layout fs
+  | none => specItems env rootCtx cbs D none disc false outer ae layout fs
   | some (pre, t, post) =>
-    match specItems env rootCtx cbs D none disc false outer pre fs with
+    match specItems env rootCtx cbs D none disc false outer ae pre fs with
     | .error e => .error e
     | .ok (o, fs1) =>
       if t ∈ chain.tail then .error [.invalidOperation]
@@ -200,34 +207,34 @@ def specChain (env : Env) (rootCtx : Frame) (cbs : SpecCbs) (chain : List Nat) (
         match env[t]? with
         | none => .error [.templateNotFound]
         | some T =>
-          match specItems env rootCtx cbs (defs env (chain ++ [t])) none true true outer post fs1 with
+          match specItems env rootCtx cbs (defs env (chain ++ [t])) none true true outer ae post fs1 with
           | .error e => .error e
           | .ok (o2, fs2) =>
-            match cbs.chain (chain ++ [t]) disc outer T.layout fs2 with
+            match cbs.chain (chain ++ [t]) disc outer ae T.layout fs2 with
             | .error e => .error e
             | .ok (o3, fs3) => .ok (o ++ o2 ++ o3, fs3)
 
 /-- the spec with `fuel` nesting levels left -/
 def specAll (env : Env) (rootCtx : Frame) : Nat → SpecCbs
   | 0 =>
-    { body := fun _ _ _ _ _ _ => .error [.recursion],
-      list := fun _ _ _ _ _ _ _ => .error [.recursion],
-      chain := fun _ _ _ _ _ => .error [.recursion] }
+    { body := fun _ _ _ _ _ _ _ => .error [.recursion],
+      list := fun _ _ _ _ _ _ _ _ => .error [.recursion],
+      chain := fun _ _ _ _ _ _ => .error [.recursion] }
   | fuel + 1 =>
-    { body := fun D n k disc outer fs =>
+    { body := fun D n k disc outer ae fs =>
         match (D n)[k]? with
         | none => .error [.panic]
-        | some b => specItems env rootCtx (specAll env rootCtx fuel) D (some (n, k)) disc false outer b fs,
-      list := fun D cur disc ext outer items fs =>
-        specItems env rootCtx (specAll env rootCtx fuel) D cur disc ext outer items fs,
-      chain := fun chain disc outer layout fs =>
-        specChain env rootCtx (specAll env rootCtx fuel) chain disc outer layout fs }
+        | some b => specItems env rootCtx (specAll env rootCtx fuel) D (some (n, k)) disc false outer ae b fs,
+      list := fun D cur disc ext outer ae items fs =>
+        specItems env rootCtx (specAll env rootCtx fuel) D cur disc ext outer ae items fs,
+      chain := fun chain disc outer ae layout fs =>
+        specChain env rootCtx (specAll env rootCtx fuel) chain disc outer ae layout fs }
 
 def specRender (env : Env) (rootCtx : Frame) (fuel : Nat) (main : Nat) : Except Err (List String) :=
   match env[main]? with
   | none => .error [.templateNotFound]
   | some T =>
-    match (specAll env rootCtx fuel).chain [main] false 0 T.layout [[]] with
+    match (specAll env rootCtx fuel).chain [main] false 0 T.ae T.layout [[]] with
     | .error e => .error e
     | .ok (o, _) => .ok o
 
@@ -243,6 +250,7 @@ def itemOK (cur : Option Nat) (blk : Bool) : Item → Bool
   | .super | .setSuper _ => cur.isSome
   | .extends exec _ => !exec
   | .loop _ _ body => itemsOK cur blk body
+  | .autoesc _ body => itemsOK cur blk body
   | .inMacro _ _ _ body => itemsOK none false body
   | _ => true
 def itemsOK (cur : Option Nat) (blk : Bool) : List Item → Bool
